@@ -1,6 +1,6 @@
 (** C13 — owned elements are dropped exactly once on all non-panicking paths. *)
 From OrxPar Require Import Base Settings SettingsP Spec Pipeline PipelineP Machine MachineP Termination
-  Kernels KernelsP Own Program Master.
+  Kernels KernelsP Own Program Master MachineIter MachineIterP TerminationIter MasterIter.
 
 (** The owning source: for every schedule, when all threads have finished, every element of the
     source vector has been moved out of the buffer exactly once (processed by a closure, or
@@ -42,6 +42,20 @@ Theorem C13_fragments_hold_each_value_once : forall (V : Type) (src : list V) (o
   Permutation (res_colx (tpe src ops) (ws (full_run r src ops sched))) (seq_chain (stages_of ops) src).
 Proof. intros V src ops r sched Hw Hd. apply par_collect_x; assumption. Qed.
 Print Assumptions C13_fragments_hold_each_value_once.
+
+(** by-value iterator sources (items are moved out of the user's iterator by [next()]): every
+    element yielded so far belongs to exactly one worker and, when all threads have finished, has
+    been processed or abandoned (dropped with that worker's buffer) exactly once; what was never
+    yielded stays inside the iterator *)
+Theorem C13_iterator_elements_exactly_once :
+  forall (r : Runner) (len : nat) (ordered : bool) (stop : nat -> bool) (sched : list nat),
+  runner_wf r -> iall_done (imrunp r len ordered stop nopanic sched) ->
+  Permutation (flat_map iseen (iws (imrunp r len ordered stop nopanic sched))
+               ++ flat_map iaband (iws (imrunp r len ordered stop nopanic sched)))
+              (seq 0 (ifront (imrunp r len ordered stop nopanic sched)))
+  /\ ifront (imrunp r len ordered stop nopanic sched) <= len.
+Proof. intros r len ordered stop sched Hw Hd. apply imrunp_source_accounting; assumption. Qed.
+Print Assumptions C13_iterator_elements_exactly_once.
 
 (** find on a prefix: positions 0, 1 and 3..5 are processed, 2 was pulled by the finder and
     abandoned, 6..9 are dropped in place by skip_to_end *)
